@@ -215,7 +215,6 @@ __wrap_send(int fd, const void * buf, size_t len, int flags)
 	struct ans * a;
 	size_t k;
 
-	(void)flags;
 	if (qempty(Q)) { tr(NFD + fd, "%ld>%ld,", (long)len, -1L); errno = EAGAIN; return (-1); }
 	progress = 1;
 	a = &Q->a[Q->head++];
@@ -238,7 +237,7 @@ __wrap_send(int fd, const void * buf, size_t len, int flags)
 	case A_INTR:
 		tr(NFD + fd, "%ld>%ld,", (long)len, -1L); errno = EINTR; return (-1);
 	default:
-		tr(NFD + fd, "%ld>%ld,", (long)len, -1L); errno = EPIPE; return (-1);
+		tr(NFD + fd, "%ld>%ld,", (long)len, -1L); hc_epipe(flags); errno = EPIPE; return (-1);
 	}
 }
 
